@@ -1216,10 +1216,20 @@ func (x *Exec) atCall(cs *callSite, callee *ssa.Function) {
 			env.vars[fmt.Sprintf("arg%d", k)] = cv
 		}
 		t, err := x.evalBool(env, cl.Expr)
+		if x.atcallHits == nil {
+			x.atcallHits = map[*Clause]int{}
+		}
 		if err != nil {
+			// a clause naming a variable of one loop only (taidx, lidx) applies to the
+			// call sites inside that loop; it has to apply somewhere (checked at the end)
+			if strings.Contains(err.Error(), "unknown identifier") {
+				x.atcallHits[cl] += 0
+				continue
+			}
 			x.unsupported("atcall clause: " + err.Error())
 			continue
 		}
+		x.atcallHits[cl]++
 		name := fmt.Sprintf("atcall[%s#%d]", short, i)
 		if cl.Name != "" {
 			name = fmt.Sprintf("atcall[%s:%s]", short, cl.Name)
